@@ -68,6 +68,7 @@ class load_configuration:
 
     def ensures(c, config_data, plugins, result):
         cfg = c.old(config_data)
+        plugins = c.old(plugins)
         n = plugins.len
         cnt = count_fold(c, cfg, plugins)
         c.lemma("prefix", cnt)
@@ -86,6 +87,7 @@ class load_configuration:
 
     def _cfgerr(c, config_data, plugins, exc):
         cfg = c.old(config_data)
+        plugins = c.old(plugins)
         n = plugins.len
         return c.Or(
             c.And(unknown_section(c, cfg, plugins), c.no_events()),
@@ -94,12 +96,12 @@ class load_configuration:
 
     raises = {CFGERR: _cfgerr,
               # what a digest raises propagates (the property is silent about it)
-              "BaseException": lambda c, config_data, plugins, exc: c.And(c.Not(unknown_section(c, c.old(config_data), plugins)), c.n_events() >= 1)}
+              "BaseException": lambda c, config_data, plugins, exc: c.And(c.Not(unknown_section(c, c.old(config_data), c.old(plugins))), c.n_events() >= 1)}
 
     loops = {
         0: Loop(
             inv=lambda c, L, i: _inv(c, L, i),
-            modifies=lambda c, L: [("trace",), ("all", "$mhas", lambda x: x >= c.ctx.alloc0), ("all", "$mval", lambda x: x >= c.ctx.alloc0)],
+            modifies=lambda c, L: [("trace",)] + [("all", f, lambda x: x >= c.ctx.alloc0) for f in ("$mhas", "$mval", "$len", "$item")],
             local_types={"plugin": Plugin, "section_data": TAny(), "plugin_content": TAny()},
         )
     }
@@ -107,7 +109,7 @@ class load_configuration:
 
 def _inv(c, L, i):
     cfg = c.old(L.config_data)      # the configuration as it was at loop entry (it is not modified, last clause)
-    plugins = c.seq
+    plugins = c.old(c.seq)          # the plugin tuple as at loop entry (never modified)
     cnt = count_fold(c, cfg, plugins)
     c.lemma("prefix", cnt)
     return {
